@@ -358,7 +358,7 @@ def run(ctx):
         log("BUILD FAILED (harness sync):\n" + out[-3000:])
         raise SystemExit(2)
     vlib.regen_consts("Sync", "sync")
-    proofs_ok, info = ctx.check_proofs(make_targets=["Sync/Proofs.vo", "Properties/C19.vo"],
+    proofs_ok, info = ctx.check_proofs(make_targets=["Sync/Proofs.vo", "Sync/ProofsSender.vo", "Properties/C19.vo"],
                                        gate_paths=["Sync", "Properties/C19"])
     mok, mout, _ = vlib.model_build("Sync")
     if not mok:
